@@ -19,7 +19,24 @@ theorem frame_partial (p : Program) (hc : purityCheck p = true) (hb : BuiltinsSo
     ∀ e ∈ run p fuel i, e = .freshWrite ∨ e = .event := by
   unfold run
   simp only [hf]
-  exact frame_aux p hc hb fuel f (List.mem_of_getElem? hf) hv f.body (fun _ h => h)
+  intro e he
+  rcases frame_aux p hc hb false (by simp) fuel f (List.mem_of_getElem? hf) hv f.body (fun _ h => h) e he with h | h
+  · exact .inl h
+  · exact .inr h.2
+
+/-- **Frame**, full strength for programs without `emit` statements: every effect of a run of a view
+function is a write into an object allocated during the call — no storage write, no destruction, no write
+into a pre-existing object, no event. -/
+theorem frame_no_emit (p : Program) (hc : purityCheck p = true) (hb : BuiltinsSound p)
+    (hne : ∀ f ∈ p, Stmt.emit ∉ f.body)
+    (i : Nat) (f : Fun) (hf : p[i]? = some f) (hv : f.purity = .view) (fuel : Nat) :
+    ∀ e ∈ run p fuel i, e = .freshWrite := by
+  unfold run
+  simp only [hf]
+  intro e he
+  rcases frame_aux p hc hb true (fun _ => hne) fuel f (List.mem_of_getElem? hf) hv f.body (fun _ h => h) e he with h | h
+  · exact h
+  · simp at h
 
 /-- **Known finding** `view-function-emits-event`: a `view` function whose body is `emit E()` is accepted
 and its run delivers an event. -/
